@@ -15,7 +15,7 @@ def m_apply_if_rows(v, params):
     # rows for the disagreement to count as this finding; on random raw CLVM and compiled programs the model is not exact
     # about what is emitted before a failure (counted as drift), there the operator of the false rows decides
     return v["kind"] == "false-row" and all(r["op"] in (["a", [2]], ["a", [3]]) for r in v["false_rows"]) and \
-        (v.get("family") != "replay" or v.get("model_explains") in ("yes", "unknown"))
+        (v.get("family") not in ("replay", "hier-replay") or v.get("model_explains") in ("yes", "unknown"))
 
 
 def m_headform(v, params):
@@ -56,6 +56,73 @@ def _validate(acc, trace, rep, name):
     os.remove(trace)
 
 
+def _validate_hier(acc, trace, rep, name):
+    """hierarchical (-t) view: Trace_Hier judges the events of the real HierarchialRunner"""
+    res = core.trace_validate(acc, "Trace_Hier", "Trace_Hier.cfg", trace, name, timeout=3000)
+    lines = open(trace).read().splitlines()
+    for (l, why) in res["bad"]:
+        ev = json.loads(lines[l - 1])
+        case = {"prog": ev["prog"], "env": ev["env"], "symbols": ev["symbols"], "view": "hierarchical"}
+        common = {"property": "C12", "case": case, "model_explains": why.get("model_explains"), "family": name, "consensus": ev["cons"]}
+        E = ev["events"]
+        if why["false_rows"]:
+            rep["violations"].append(dict(common, kind="false-row", false_rows=[E[i - 1] for i in why["false_rows"]]))
+        if not why["terminal"]:
+            infos = [x for x in E if x["k"] == "info"]
+            rep["violations"].append(dict(common, kind="hier-terminal-row-differs", last=infos[-1] if infos else None))
+        if not why["finishes"] or why["end"] == "error":
+            rep["violations"].append(dict(common, kind="hier-does-not-finish", end=why["end"], steps=ev.get("limit"), flat_steps=ev.get("flat_steps")))
+        if why["bad_calls"]:
+            rep["violations"].append(dict(common, kind="hier-frame-misdescribed", frames=[E[i - 1] for i in why["bad_calls"]], syms=ev["syms"]))
+        if why["bad_returns"]:
+            rep["violations"].append(dict(common, kind="hier-frame-returns-other-value", returns=[E[i - 1] for i in why["bad_returns"]]))
+        if not why["depthok"]:
+            rep["violations"].append(dict(common, kind="hier-stack-underflow"))
+    acc.drift += res["cnt"]["unexplained"]
+    for d in res.get("drift", [])[:3]:
+        acc.drift_samples.append({"view": "hierarchical", "trace_record": d[0], "first_differing_event": d[1], "model": d[2], "observed": d[3]})
+    acc.add_report(rep)
+    for k, v in res["cnt"].items():
+        acc.counts[f"{name}_{k}"] = v
+    os.remove(trace)
+
+
+def run_hier(tier, acc):
+    # M: the frame machine of Hierarchy.tla on every enumerated term under three symbol tables; the variant that takes
+    # an apply with a surplus argument for a call (the code before its repair) must be refuted (non-vacuity)
+    n = 4 if tier == "quick" else 5
+    for (cfgname, loose) in (("MC_HierGen_hier.cfg", False), ("MC_HierGen_loosev.cfg", True)):
+        with open(os.path.join(core.SPEC, cfgname), "w") as f:
+            f.write(f"SPECIFICATION Spec\nCONSTANTS MaxLen = {n if not loose else 5}\n Profile = \"hier\"\n EnvSet = \"hier\"\n ExtraCheck <- HierCheck\n"
+                    + (" LooseArity <- Loose\n" if loose else "") + "CHECK_DEADLOCK FALSE\n")
+        r = core.run_tlc("MC_HierGen", cfgname, "C12_hier_loose" if loose else "C12_hier", workers=14, timeout=3000, coverage=False, heap="16g", expect_failure=loose)
+        if loose:
+            if r.ok or "extra check" not in r.output:
+                raise core.ToolError("Hierarchy model: the variant that calls through an apply with a surplus argument was not refuted (vacuous assertion)")
+            acc.counts["hier_loose_variant_refuted"] = 1
+            if os.path.exists(r.out_path):
+                os.remove(r.out_path)
+            continue
+        if not r.ok:
+            raise core.ToolError(f"Hierarchy model: {r.invariant_violated}\n{r.output[-2500:]}")
+        acc.add_tlc("MC_HierGen", r)
+        trace = os.path.join(core.BUILD, "C12_hier_replay.ndjson")
+        out = os.path.join(core.BUILD, "C12_hier_replay.report.json")
+        core.run_vh(["replay-hier", "--in", r.out_path, "--trace", trace, "--out", out, "--every", "1" if tier == "quick" else "4"], timeout=3000)
+        os.remove(r.out_path)
+        rp = core.load_json(out)
+        if rp["evaluations"] == 0:
+            raise core.ToolError("vacuous model run: no hierarchy vector was emitted")
+        _validate_hier(acc, trace, rp, "hier-replay")
+    trace = os.path.join(core.BUILD, "C12_hier_drive.ndjson")
+    out = os.path.join(core.BUILD, "C12_hier_drive.report.json")
+    core.run_vh(["drive-hier", "--n", "120" if tier == "quick" else "1500", "--trace", trace, "--out", out], timeout=3000)
+    rp = core.load_json(out)
+    if rp["counts"].get("runs_with_function_frames", 0) == 0:
+        raise core.ToolError("hierarchical view: no run showed a function frame")
+    _validate_hier(acc, trace, rp, "hier-drive")
+
+
 def run(tier, acc):
     acc.rule = ("M: Cldb.tla puts the debugger's row assembler on top of the ClvmStepper machine; on every term enumerated for C06 TLC "
                 "asserts that the final row is the big-step result (failure row iff the semantics fails) and that only apply rows can "
@@ -63,9 +130,15 @@ def run(tier, acc):
                 "T: random raw CLVM and compiled generated programs of every dialect, each run from source form and from hex "
                 "(hex_to_modern_sexp). For every emitted row the structured operator/arguments/value are taken from the step state "
                 "and clvmr is asked about (op (q . a1) ..); Trace_Cldb checks row numbering, truth of every row, the terminal row "
-                "against clvmr on the whole program, and hex = source row by row. non-trivial = distinct (program, environment) runs")
+                "against clvmr on the whole program, and hex = source row by row. Hierarchical (-t) view: Hierarchy.tla is the frame "
+                "machine of HierarchialRunner::step (Return / Call / Step) over one row assembler per frame; TLC asserts on every "
+                "enumerated term under three symbol tables that the last row is the big-step result, that every function frame "
+                "returns the big-step value of (code, argument) and that the view without symbols is the flat debugger; the real "
+                "runner is stepped on the same terms and on compiled programs with the compiler's symbol tables and Trace_Hier "
+                "checks termination, terminal row, truth of rows, frame names / arguments / returned values, and that the model "
+                "reproduces the event sequence. non-trivial = distinct (program, environment) runs")
     acc.assumptions = ["clvmr is the consensus evaluator", "locations are not compared between the hex and the source run",
-                       "the hierarchical (-t) view is exercised through the same CldbRun rows (its frame bookkeeping is not modelled)"]
+                       "hierarchical (-t) view: frame names and arguments are judged against the symbol table the compiler reported (C13 judges that table)"]
     n = 3 if tier == "quick" else 4
     cfg = cc.write_cfg("MC_CldbGen_cldb.cfg", n + 1 if tier == "quick" else n + 1, "stepper", "clean", extra="CldbCheck")
     r = core.run_tlc("MC_CldbGen", cfg, "C12_model", workers=14, timeout=3000, coverage=False, heap="16g")
@@ -84,11 +157,28 @@ def run(tier, acc):
     out = os.path.join(core.BUILD, "C12_drive.report.json")
     core.run_vh(["drive-cldb", "--n", "400" if tier == "quick" else "6000", "--trace", trace, "--out", out], timeout=3000)
     _validate(acc, trace, core.load_json(out), "drive")
+    run_hier(tier, acc)
 
 
 def replay(path):
     rec = core.load_json(path)
     v = rec["violation"]
+    if v["case"].get("view") == "hierarchical":
+        tmp = os.path.join(core.BUILD, "C12_replay_one.ndjson")
+        with open(tmp, "w") as f:
+            f.write(json.dumps({"prog": v["case"]["prog"], "env": v["case"]["env"], "symbols": v["case"]["symbols"]}) + "\n")
+        trace = os.path.join(core.BUILD, "C12_replay_one.trace")
+        out = os.path.join(core.BUILD, "C12_replay_one.report.json")
+        core.run_vh(["replay-hier", "--ndjson", "--in", tmp, "--trace", trace, "--out", out])
+        acc = core.Acc("C12", "quick", LEVEL)
+        _validate_hier(acc, trace, core.load_json(out), "hier-replay")
+        vs = [x for x in acc.violations if x["kind"] == v["kind"]]
+        if vs:
+            print(f"VIOLATION property=C12 replay={path}")
+            print("  " + json.dumps(vs[0])[:700])
+            return 1
+        print("replay: the hierarchical view is faithful on this run now")
+        return 0
     tmp = os.path.join(core.BUILD, "C12_replay_one.ndjson")
     with open(tmp, "w") as f:
         f.write(json.dumps({"prog": v["case"]["prog"], "env": v["case"]["env"]}) + "\n")
